@@ -86,6 +86,8 @@ inductive ReqOutcome where
   | raisesAfterRead      -- ... and find_key raised (D15/D12)
   | returnsAfterPaste    -- a burst above the paste threshold: the paste loop tops the buffer up, its last
                          --   `_nonblocking_read` finds nothing (BlockingIOError inside `with Nonblocking`)
+  | raisesInPaste        -- a burst above the paste threshold that ends inside a keypress: find_key raises in the
+                         --   paste loop, after the burst read and the top-up read (each inside its own `with Nonblocking`)
   | emptyRead            -- select said ready but os.read returned b"" (EOF / SIGTSTP via dsusp): returns None
   | keyboardInterrupt    -- SIGINT while blocked in select (raises iff the handler then installed is the default one)
   deriving DecidableEq, Repr
@@ -196,6 +198,12 @@ def request (T : TtyOps A) (main : Bool) (cfg : InputCfg) (id : Nat) (o : ReqOut
       let w := { w with fl := origFl }
       let w := { w with fl := T.nonblock w.fl }                              -- top-up read of the paste loop:
       ({ w with fl := origFl }, false)                                       --   BlockingIOError, caught INSIDE the with
+    | .raisesInPaste =>
+      let origFl := w.fl
+      let w := { w with fl := T.nonblock origFl }
+      let w := { w with fl := origFl }
+      let w := { w with fl := T.nonblock w.fl }
+      ({ w with fl := origFl }, true)
     | .emptyRead =>
       let origFl := w.fl
       let w := { w with fl := T.nonblock origFl }
